@@ -79,6 +79,21 @@ def k_factory(ctx, kind, cfg, p):
     V.pdu_views(ctx, "factory.from_raw", pdu, raw, dict(h, dst_w=cfg["idw"]), case, f"{type(pdu).__name__}/from_raw")
     ISO.remember(pdu, raw, kind, view=lambda pdu=pdu: (C.get_params(kind, pdu), C.hdr_fields(pdu.pdu_header), pdu.packet_len))
     ISO.recheck(ctx, "factory.decoded_objects_independent", case)
+    # hostile caller: a scratch decode of the same octets is overwritten (ids, sequence number, flags - the object is the caller's),
+    # then the octets are decoded once more: the result is what the octets say, not what was done to an object handed out before
+    ok, scratch = attempt(X.PduFactory.from_raw, raw)
+    if ok and scratch is not None:
+        def scribble():
+            h_ = scratch.pdu_header
+            for f_ in (h_.source_entity_id, h_.dest_entity_id, h_.transaction_seq_num):
+                if f_.byte_len:
+                    f_.value = f_.value ^ 1
+            h_.pdu_conf.crc_flag = X.defs.CrcFlag(1 - int(h_.pdu_conf.crc_flag))
+            h_.pdu_conf.trans_mode = X.defs.TransmissionMode(1 - int(h_.pdu_conf.trans_mode))
+        attempt(scribble)
+        ok, again = attempt(X.PduFactory.from_raw, raw)
+        ctx.check("factory.from_raw", ok and again is not None and again is not scratch and bytes(again.pack()) == raw and C.hdr_fields(again.pdu_header) == dict(h, dst_w=cfg["idw"]),
+                  "decode_after_a_handed_out_object_was_overwritten", feat, case, observed=repr(again)[:200])
     # holder
     ok, holder = attempt(X.PduFactory.from_raw_to_holder, raw)
     if not ctx.check("holder", ok, "from_raw_to_holder_raised", feat, case, error=repr(holder)):
